@@ -373,7 +373,12 @@ func runTierBCase(c *verdict.Ctx, dir string, idx int) {
 			c.Count("tier B "+rr.what+" returned a value", 1)
 		}
 		if len(rr.bad) > 0 {
-			c.Violation("tierb-unverified-value-in-"+strings.ToLower(rr.what),
+			key := "tierb-unverified-value-in-" + strings.ToLower(rr.what)
+			if len(served) == 0 {
+				// nobody lied: the provider itself put together something else than the canonical value
+				key = "tierb-" + strings.ToLower(rr.what) + "-differs-from-canonical-with-honest-servers"
+			}
+			c.Violation(key,
 				fmt.Sprintf("the light-client state provider's %s(%d) returned without error but %s; servers: primary %+v, witnesses %+v %+v",
 					rr.what, tc.S, strings.Join(rr.bad, "; "), tc.Servers[0], tc.Servers[1], tc.Servers[2]),
 				map[string]interface{}{"stream": "tierb", "case": idx, "tier_b_case": tc, "lies_served": served, "outcome": outcome})
